@@ -166,6 +166,23 @@ func goroutineBlockedIn(fn string, topMustContain string) bool {
 	return false
 }
 
+var sigArgs = regexp.MustCompile(`\([^()]*\)$`)
+
+// prettySig renders a blocked picture for messages: goroutine id, state, top frame
+func prettySig(sig string) string {
+	parts := strings.Split(sig, "|")
+	for i, p := range parts {
+		p = sigArgs.ReplaceAllString(p, "")
+		p = strings.ReplaceAll(p, "github.com/ava-labs/hypersdk/", "")
+		parts[i] = p
+	}
+	out := strings.Join(parts, " | ")
+	if len(out) > 900 {
+		out = out[:900] + "..."
+	}
+	return out
+}
+
 // ---------------------------------------------------------------- waiting
 
 type waitOutcome int
@@ -216,10 +233,11 @@ func confirmQuiescent(progress *atomic.Int64, harnessIdle func() bool, markers [
 	return true, prev
 }
 
-// awaitOrHang waits until done() holds, or the progress counter moves, or a hang is
-// proven, or the hard limit passes.
-func awaitOrHang(progress *atomic.Int64, done func() bool, harnessIdle func() bool, markers []string, deadline time.Time) (waitOutcome, string) {
-	p0 := progress.Load()
+// awaitOrHang waits until done() holds, or the progress counter differs from p0 (which
+// the caller must have read BEFORE it looked for things to do, otherwise an event
+// between that look and this call would be missed), or a hang is proven, or the
+// hard limit passes.
+func awaitOrHang(progress *atomic.Int64, p0 int64, done func() bool, harnessIdle func() bool, markers []string, deadline time.Time) (waitOutcome, string) {
 	last := time.Now()
 	spins := 0
 	for {
